@@ -53,6 +53,11 @@ RULE = ('Hypothesis-generated cases: 1-6 static-registration files forming an in
         'bindings, finalize_config default/False/True)} x skip_unknown {not passed, True, False}; '
         'finalize_config / skip_unknown are omitted, passed by keyword or passed positionally '
         '(third / fourth argument of the multi-file entry point, second of the other two); '
+        'gin.clear_config() is called after the first location is registered / after all '
+        'registrations / between a failed call and its repetition (registered locations and '
+        'readers survive it); after a failed call (unreadable file, unknown name) the same call '
+        '- or, for parse_config_file, a text including the root file - is optionally repeated '
+        'after creating the file / with skip_unknown=True and must behave like a first parse; '
         'with no files the files argument is [] / None / (), with no bindings the bindings '
         'argument is [] / None / ""; optionally, after a successful call that left the config '
         'unlocked, the multi-file entry point is called again with nothing to parse '
@@ -68,6 +73,10 @@ ASSUMPTIONS = [
     'check ran exactly once and saw the final config, and a further bind_parameter is refused; '
     'this also holds when there is nothing to parse (no files, no bindings)',
     'static registration only (dynamic-registration files belong to C19)',
+    'clear_config() resets bindings, not the registered search locations and readers',
+    'a failed parse applies only statements of the text it was parsing (a prefix), so repeating '
+    'the complete parse afterwards yields the config of the complete flattened text; files that '
+    'were being parsed when the failure happened can be parsed again',
     'a directory carrying the name is not a file anybody can read: resolution continues with the '
     'next reader / location, and if nothing else holds the name it is "a name nobody can read"',
     'a search location is a path prefix joined to the name with "/"; the current directory is the '
@@ -102,6 +111,10 @@ FLOORS = {
     'default-skip-with-unknown:config': 0.01, 'default-skip-with-unknown:file': 0.01,
     'default-skip-with-unknown:multi': 0.01, 'missing:abs-direct': 0.003,
     'nspath:namespace-dir-consulted': 0.05, 'selected:custom-reader': 0.05,
+    'retry:ok,after-unknown': 0.02, 'retry:ok,after-missing': 0.03,
+    'retry:ok,reparses-file-open-at-failure': 0.03, 'retry:ok,through-another-root': 0.005,
+    'clear:after-first-location,more-follow': 0.05, 'clear:after-all-registrations': 0.2,
+    'clear:between-two-parses': 0.03,
     'dir:before-real-file,direct': 0.01, 'dir:before-real-file,included': 0.01,
     'dir:and-no-real-file': 0.01, 'unknown:in-extra-bindings,skipped': 0.004,
     'unknown:skipped': 0.02,
@@ -204,6 +217,8 @@ def strategy():
       'roots': st.sampled_from([0, 1, 1, 2, 2, 3]),
       'eform': st.integers(0, 8),
       'argstyle': st.integers(0, 2),
+      'clear': st.integers(0, 7),
+      'retry': st.one_of(st.none(), st.fixed_dictionaries({'mode': st.integers(0, 1)})),
       'after': st.one_of(st.none(), st.none(), st.fixed_dictionaries({
           'argstyle': st.integers(0, 2),
           'finalize': st.sampled_from(['default', 'default', 'false', 'true']),
@@ -240,11 +255,15 @@ def _join(prefix, name):
 class Model:
   """Everything that follows from the case (and the temp dir name) alone."""
 
-  def __init__(self, case, tmp):
+  def __init__(self, case, tmp, retry_of=None):
+    # retry_of: the kind of fault the first call ran into.  'unknown' -> the same call is repeated
+    # with skip_unknown=True; 'missing' -> the unreadable file is created first.
     self.case = case
     self.tmp = tmp
     self.entry = case['entry']
-    self.skip_passed = case['skip'] == 'true'
+    self.retry_of = retry_of
+    self.retry_ok = retry_of is not None
+    self.skip_passed = case['skip'] == 'true' or retry_of == 'unknown'
     files = case['files']
     n = self.n = len(files)
     self.nroots = min(case['roots'], n) if self.entry == 'multi' else 1
@@ -388,6 +407,20 @@ class Model:
         self.dirs[path] = None
         if l <= nloc:
           self.dir_locs.setdefault(i, set()).add(0 if f['kind'] == 'abs' else l)
+    if self.retry_of == 'missing':
+      # the file nobody could read is created (as a plain file in the first location where the
+      # name is free) before the call is repeated
+      self.retry_ok = False
+      i = self.missing
+      if i is not None and not self.candidates(self.names[i]):
+        spots = [''] if self.case['files'][i]['kind'] == 'abs' else self.prefixes
+        for prefix in spots:
+          path = self._abs(_join(prefix, self.names[i]))
+          if path not in self.dirs and path not in self.disk:
+            tag = f'f{i}@created-for-retry'
+            self.disk[path] = (self._render(i, tag), tag)
+            self.retry_ok = True
+            break
 
   def _abs(self, path):
     return path if path.startswith('/') else self.cwd + '/' + path
@@ -774,6 +807,159 @@ def check_case(case):
     shutil.rmtree(tmp, ignore_errors=True)
 
 
+def _make_call(m, case, skip, wrap=False):
+  """The entry-point call of the case -> (callable, pos, kw, finalize_requested, labels)."""
+  entry = case['entry']
+  style = case.get('argstyle', 0)
+  labels = set()
+  finalize_requested = False
+  if entry != 'multi':
+    # skip_unknown is the second parameter of parse_config and parse_config_file
+    pos, kw = [], {}
+    if skip != 'default':
+      if style:
+        pos = [skip == 'true']
+        labels.add('args:skip-positional')
+      else:
+        kw['skip_unknown'] = skip == 'true'
+  if entry == 'config':
+    root_text = m._render(0, 'root')     # pylint: disable=protected-access
+    call = lambda: gin.parse_config(root_text, *pos, **kw)
+  elif entry == 'file' and wrap:
+    # another root reaching the same files: a one-line text including the root file
+    call = lambda: gin.parse_config(f"include '{m.names[0]}'\n", *pos, **kw)
+  elif entry == 'file':
+    call = lambda: gin.parse_config_file(m.names[0], *pos, **kw)
+  else:
+    pos, kw, how = _multi_args(case['finalize'], skip, style)
+    labels.update('args:multi-' + h for h in how)
+    finalize_requested = case['finalize'] != 'false'
+    # 'default' in labels means: really not passed
+    fin_label = 'true' if case['finalize'] == 'default' and pos else case['finalize']
+    extra = [m._render_item('B', 'B', idx, item)     # pylint: disable=protected-access
+             for idx, item in enumerate(m.binding_items)]
+    if not extra:
+      if 'eform' in case:
+        extra = _empty_bindings(case['eform'])
+      elif len(case['files']) % 2:
+        extra = None
+    roots = [m.names[r] for r in range(m.nroots)]
+    if not roots:
+      roots = _empty_files(case.get('eform', 0))
+    if not roots and not extra:
+      labels.add('multi:nothing-to-parse')
+      labels.add('multi:nothing-to-parse,finalize-' + fin_label)
+    call = lambda: gin.parse_config_files_and_bindings(roots, extra, *pos, **kw)
+    labels.add('multi:finalize-' + fin_label)
+    labels.add(f'multi:files={m.nroots}')
+  return call, pos, kw, finalize_requested, labels
+
+
+def _reference_cs(text, skip):
+  v = iso.run(_reference, {'text': text, 'skip': skip})
+  if v.get('status') == 'inconclusive':
+    raise OutOfDomain('reference child inconclusive: ' + v.get('reason', ''))
+  require(v.get('status') == 'ok', 'reference-parse-failed',
+          lambda: f'flattened text did not parse in a pristine process:\n{text}\n{v}')
+  return v['info']['cs']
+
+
+def _check_success(case, entry, got, err, cs, ref_cs, trees, desc, flat_text, finalize_requested,
+                   hook_snapshots, calls_before):
+  """Everything asserted about a call that the model expects to succeed."""
+  require(err is None, 'unexpected-error',
+          lambda: f'{desc}: {type(err).__name__}: {err}\nflattened text:\n{flat_text}')
+  require(cs == ref_cs, 'config-differs-from-flattened',
+          lambda: f'{desc}\n--- got\n{cs}\n--- flattened text\n{flat_text}\n--- its config\n'
+                  f'{ref_cs}')
+  if entry == 'config':
+    includes, imports = got
+    root = trees[0]
+    got_imports = sorted(x for x in imports if x != UNKNOWN_MODULE)
+    require(got_imports == sorted(root['imports']), 'tree-imports',
+            lambda: f'parse_config returned imports {imports}, the text imports '
+                    f'{root["imports"]}')
+    require(len(includes) == len(root['includes']), 'tree-shape',
+            lambda: f'parse_config returned {len(includes)} includes, the text has '
+                    f'{len(root["includes"])}')
+    for k, (g, e) in enumerate(zip(includes, root['includes'])):
+      _check_tree(g, e, f'root/{k}')
+  elif entry == 'file':
+    _check_tree(got, trees[0], 'root')
+  else:
+    require(isinstance(got, (list, tuple)) and len(got) == len(trees), 'tree-shape',
+            lambda: f'multi-file entry point returned {got!r} for {len(trees)} files')
+    for k, (g, e) in enumerate(zip(got, trees)):
+      _check_tree(g, e, f'file{k}')
+    locked = gin.config_is_locked()
+    ran = len(hook_snapshots) - calls_before
+    if finalize_requested:
+      require(locked, 'not-finalized',
+              lambda: f'{desc}: finalize_config={case["finalize"]} but the config is not locked')
+      require(ran == 1, 'finalize-hook-calls', lambda: f'{desc}: finalize hook ran {ran} times')
+      require(hook_snapshots[-1] == cs, 'finalized-before-everything-applied',
+              lambda: f'{desc}: config at finalize time\n{hook_snapshots[-1]}\n--- final\n{cs}')
+      _check_refuses_binding(desc, cs)
+    else:
+      require(not locked and not ran, 'finalized-although-told-not-to',
+              lambda: f'{desc}: locked={locked} hook calls={ran}')
+
+
+def _retry(case, m, retry, fault, labels, hook_snapshots):
+  """A failed parse, then the parse again: it must behave like a first parse."""
+  if retry is None:
+    return
+  m2 = retry['m']
+  for path, (content, _) in m2.disk.items():
+    if path not in m.disk:
+      os.makedirs(os.path.dirname(path), exist_ok=True)
+      with open(path, 'w') as f:
+        f.write(content)
+  if case.get('clear', 0) & 4:
+    gin.clear_config()
+    labels.add('clear:between-two-parses')
+  entry = case['entry']
+  wrap = bool(case['retry'].get('mode')) and entry == 'file'
+  skip2 = 'true' if fault.kind == 'unknown' else case['skip']
+  call, pos, kw, finalize_requested, _ = _make_call(m2, case, skip2, wrap=wrap)
+  what = ('skip_unknown=True' if fault.kind == 'unknown'
+          else f'creating {m2.names[m2.missing]!r}')
+  desc = (f'after a failed {entry} call, retry with {what}'
+          f'{" through a text including the root file" if wrap else ""}: extra positional '
+          f'args={pos} kwargs={kw}')
+  calls_before = len(hook_snapshots)
+  got = err = None
+  try:
+    got = call()
+  except Exception as e:  # pylint: disable=broad-except
+    err = e
+  cs = gin.config_str()
+  fault2 = retry['fault']
+  if fault2 is not None:
+    # the repetition runs into the next fault (an unknown name further on)
+    require(err is not None, 'unknown-name-not-an-error',
+            lambda: f'{desc}: expected the next fault ({fault2.kind}) to raise')
+    labels.add('retry:next-fault')
+    return
+  _check_success(case, 'config' if wrap else entry, got, err, cs, retry['ref'],
+                 [{'name': None, 'imports': [], 'includes': retry['trees']}] if wrap
+                 else retry['trees'],
+                 desc, retry['text'], finalize_requested, hook_snapshots, calls_before)
+  labels.add('retry:ok')
+  labels.add('retry:ok,after-' + fault.kind)
+  if wrap:
+    labels.add('retry:ok,through-another-root')
+  # files that were open (being parsed) when the first call failed and are parsed again now
+  w = fault.where
+  if fault.kind == 'unknown':
+    reopened = isinstance(w, int) and not (entry == 'config' and w == 0)
+  else:
+    reopened = not (w < m.nroots and entry != 'config') and not (
+        entry == 'config' and w in m.children[0])
+  if reopened:
+    labels.add('retry:ok,reparses-file-open-at-failure')
+
+
 def _check(case, tmp):
   m = Model(case, tmp)
   lines, trees, fault, labels = m.flatten()
@@ -784,12 +970,18 @@ def _check(case, tmp):
   # ---- reference: a fresh fork of the pristine process parses the flattened text ----------
   ref_cs = None
   if fault is None or fault.kind == 'missing':
-    v = iso.run(_reference, {'text': flat_text, 'skip': m.skip_passed})
-    if v.get('status') == 'inconclusive':
-      raise OutOfDomain('reference child inconclusive: ' + v.get('reason', ''))
-    require(v.get('status') == 'ok', 'reference-parse-failed',
-            lambda: f'flattened text did not parse in a pristine process:\n{flat_text}\n{v}')
-    ref_cs = v['info']['cs']
+    ref_cs = _reference_cs(flat_text, m.skip_passed)
+  # the failed call is repeated (after creating the file / with skip_unknown=True): what must
+  # the repetition yield?  Whatever the failed call applied is a prefix of the same statements,
+  # so the result is that of the complete flattened text alone.
+  retry = None
+  if fault is not None and case.get('retry') is not None:
+    m2 = Model(case, tmp, retry_of=fault.kind)
+    if m2.retry_ok:
+      lines2, trees2, fault2, _ = m2.flatten()
+      text2 = '\n'.join(lines2) + '\n'
+      retry = {'m': m2, 'trees': trees2, 'fault': fault2, 'text': text2,
+               'ref': _reference_cs(text2, m2.skip_passed) if fault2 is None else None}
 
   # ---- real side: materialise, register, call ---------------------------------------------
   _materialise(m)
@@ -815,11 +1007,16 @@ def _check(case, tmp):
   importlib.invalidate_caches()
   if nspath and _namespace_dir_consulted(m):
     labels.add('nspath:namespace-dir-consulted')
+  clear = case.get('clear', 0)
   for k, prefix in enumerate(m.prefixes[1:]):
     if k % 2:
       gin.config.add_config_file_search_path(prefix)
     else:
       gin.add_config_file_search_path(prefix)
+    if k == 0 and clear & 1:
+      # clear_config resets the configuration, not where config files are looked for
+      gin.clear_config()
+      labels.add('clear:after-first-location' + (',more-follow' if len(m.prefixes) > 2 else ''))
   log = []
   for k in range(m.nread):
     reader, exists = _make_reader(k, m.cust[k], log)
@@ -834,46 +1031,12 @@ def _check(case, tmp):
     hook_snapshots.append(gin.config_str())
     return None
   gin.config.register_finalize_hook(hook)
+  if clear & 2:
+    gin.clear_config()
+    labels.add('clear:after-all-registrations')
 
-  style = case.get('argstyle', 0)
-  finalize_requested = False
-  if entry != 'multi':
-    # skip_unknown is the second parameter of parse_config and parse_config_file
-    pos, kw = [], {}
-    if skip != 'default':
-      if style:
-        pos = [skip == 'true']
-        labels.add('args:skip-positional')
-      else:
-        kw['skip_unknown'] = skip == 'true'
-  if entry == 'config':
-    root_text = m._render(0, 'root')     # pylint: disable=protected-access
-    call = lambda: gin.parse_config(root_text, *pos, **kw)
-  elif entry == 'file':
-    call = lambda: gin.parse_config_file(m.names[0], *pos, **kw)
-  else:
-    pos, kw, how = _multi_args(case['finalize'], skip, style)
-    labels.update('args:multi-' + h for h in how)
-    finalize_requested = case['finalize'] != 'false'
-    # 'default' in labels means: really not passed
-    fin_label = 'true' if case['finalize'] == 'default' and pos else case['finalize']
-    extra = [m._render_item('B', 'B', idx, item)     # pylint: disable=protected-access
-             for idx, item in enumerate(m.binding_items)]
-    if not extra:
-      if 'eform' in case:
-        extra = _empty_bindings(case['eform'])
-      elif len(case['files']) % 2:
-        extra = None
-    roots = [m.names[r] for r in range(m.nroots)]
-    if not roots:
-      roots = _empty_files(case.get('eform', 0))
-    if not roots and not extra:
-      labels.add('multi:nothing-to-parse')
-      labels.add('multi:nothing-to-parse,finalize-' + fin_label)
-    call = lambda: gin.parse_config_files_and_bindings(roots, extra, *pos, **kw)
-    labels.add('multi:finalize-' + fin_label)
-    labels.add(f'multi:files={m.nroots}')
-
+  call, pos, kw, finalize_requested, call_labels = _make_call(m, case, skip)
+  labels.update(call_labels)
   got = None
   err = None
   try:
@@ -916,6 +1079,7 @@ def _check(case, tmp):
       labels.add('default-skip-with-unknown:' + entry)
     elif len(pos) >= (2 if entry == 'multi' else 1):
       labels.add('positional-skip-false-with-unknown:' + entry)
+    _retry(case, m, retry, fault, labels, hook_snapshots)
     return ok(labels, False)
 
   # ---- a name nobody can read -----------------------------------------------------------------
@@ -952,45 +1116,12 @@ def _check(case, tmp):
     nt = (m.max_levels >= 2 and m.boundary_override) or m.multi_cands
     if nt:
       labels.add('nontrivial')
+    _retry(case, m, retry, fault, labels, hook_snapshots)
     return ok(labels, nt)
 
   # ---- success path -------------------------------------------------------------------------
-  require(err is None, 'unexpected-error',
-          lambda: f'{desc}: {type(err).__name__}: {err}\nflattened text:\n{flat_text}')
-  require(cs == ref_cs, 'config-differs-from-flattened',
-          lambda: f'{desc}\n--- got\n{cs}\n--- flattened text\n{flat_text}\n--- its config\n'
-                  f'{ref_cs}')
-  if entry == 'config':
-    includes, imports = got
-    root = trees[0]
-    got_imports = sorted(x for x in imports if x != UNKNOWN_MODULE)
-    require(got_imports == sorted(root['imports']), 'tree-imports',
-            lambda: f'parse_config returned imports {imports}, the text imports '
-                    f'{root["imports"]}')
-    require(len(includes) == len(root['includes']), 'tree-shape',
-            lambda: f'parse_config returned {len(includes)} includes, the text has '
-                    f'{len(root["includes"])}')
-    for k, (g, e) in enumerate(zip(includes, root['includes'])):
-      _check_tree(g, e, f'root/{k}')
-  elif entry == 'file':
-    _check_tree(got, trees[0], 'root')
-  else:
-    require(isinstance(got, (list, tuple)) and len(got) == len(trees), 'tree-shape',
-            lambda: f'multi-file entry point returned {got!r} for {len(trees)} files')
-    for k, (g, e) in enumerate(zip(got, trees)):
-      _check_tree(g, e, f'file{k}')
-    locked = gin.config_is_locked()
-    if finalize_requested:
-      require(locked, 'not-finalized',
-              lambda: f'{desc}: finalize_config={case["finalize"]} but the config is not locked')
-      require(len(hook_snapshots) == 1, 'finalize-hook-calls',
-              lambda: f'{desc}: finalize hook ran {len(hook_snapshots)} times')
-      require(hook_snapshots[0] == cs, 'finalized-before-everything-applied',
-              lambda: f'{desc}: config at finalize time\n{hook_snapshots[0]}\n--- final\n{cs}')
-      _check_refuses_binding(desc, cs)
-    else:
-      require(not locked and not hook_snapshots, 'finalized-although-told-not-to',
-              lambda: f'{desc}: locked={locked} hook calls={len(hook_snapshots)}')
+  _check_success(case, entry, got, err, cs, ref_cs, trees, desc, flat_text, finalize_requested,
+                 hook_snapshots, 0)
   # ---- later in the same process: the multi-file entry point with nothing to parse ----------
   after = case.get('after')
   if after is not None and not gin.config_is_locked():
